@@ -57,36 +57,36 @@ const uuidB = "00112233-4455-6677-8899-aabbccddeeff"
 var XProps = []XPropSpec{
 	{NS: "tiff", Name: "Make", Kind: XString, Field: "Tiff.Make", Menu: []string{"VerifCam Corp", "C", "Canon"}},
 	{NS: "tiff", Name: "Model", Kind: XString, Field: "Tiff.Model", Menu: []string{"Model X-1", "M"}},
-	{NS: "tiff", Name: "ImageWidth", Kind: XInt, Bits: 16, Field: "Tiff.ImageWidth", Menu: []string{"6000", "1", "65535", "0"}},
+	{NS: "tiff", Name: "ImageWidth", Kind: XInt, Bits: 16, Field: "Tiff.ImageWidth", Menu: []string{"6000", "1", "65535", "0", "65534"}},
 	{NS: "tiff", Name: "ImageLength", Kind: XInt, Bits: 16, Field: "Tiff.ImageLength", Menu: []string{"4000", "65535"}},
 	{NS: "tiff", Name: "Orientation", Kind: XInt, Bits: 16, Field: "Tiff.Orientation", Menu: []string{"6", "1", "8"}},
 	{NS: "exif", Name: "PixelXDimension", Kind: XInt, Bits: 32, Field: "Exif.PixelXDimension", Menu: []string{"5999", "4294967294", "255", "256"}},
 	{NS: "exif", Name: "PixelYDimension", Kind: XInt, Bits: 32, Field: "Exif.PixelYDimension", Menu: []string{"3999", "1"}},
-	{NS: "exif", Name: "DateTimeOriginal", Kind: XDate, Field: "Exif.DateTimeOriginal", Menu: []string{"2023-06-15T12:34:56+02:00", "2023-06-15T12:34:56", "2023-06-15T12:34:56.78", "1970-01-01T00:00:00Z", "2023-06-15T12:34:56-09:30"}},
+	{NS: "exif", Name: "DateTimeOriginal", Kind: XDate, Field: "Exif.DateTimeOriginal", Menu: []string{"2023-06-15T12:34:56+02:00", "2023-06-15T12:34:56", "2023-06-15T12:34:56.78", "1970-01-01T00:00:00Z", "2023-06-15T12:34:56-09:30", "2023-06-15T12:34:56.5", "2023-06-15T12:34:56.123", "2023-06-15T12:34:56.123456", "2023-06-15T12:34:56.25Z", "2023-06-15T12:34:56.25+01:00", "2023-06-15T12:34:56.123-09:30"}},
 	{NS: "exif", Name: "ExposureTime", Kind: XRational, Field: "Exif.ExposureTime", Menu: []string{"1/250", "30/1", "1/8000", "1/3"}},
 	{NS: "exif", Name: "ExposureProgram", Kind: XInt, Bits: 8, Field: "Exif.ExposureProgram", Menu: []string{"2", "0", "9"}},
 	{NS: "exif", Name: "ExposureMode", Kind: XInt, Bits: 8, Field: "Exif.ExposureMode", Menu: []string{"1", "0", "2"}},
 	{NS: "exif", Name: "ExposureBiasValue", Kind: XBias, Field: "Exif.ExposureBias", Menu: []string{"-1/3", "2/3", "+1/3", "-2/1", "1/2"}},
 	{NS: "exif", Name: "FocalLength", Kind: XRational, Field: "Exif.FocalLength", Menu: []string{"50/1", "24/10", "1/3"}},
 	{NS: "exif", Name: "SubjectDistance", Kind: XRational, Field: "Exif.SubjectDistance", Menu: []string{"35/10", "1/1"}},
-	{NS: "exif", Name: "MeteringMode", Kind: XInt, Bits: 8, Field: "Exif.MeteringMode", Menu: []string{"5", "0", "6"}},
+	{NS: "exif", Name: "MeteringMode", Kind: XInt, Bits: 8, Field: "Exif.MeteringMode", Menu: []string{"5", "0", "6", "255"}},
 	{NS: "exif", Name: "FNumber", Kind: XRational, Field: "Exif.Aperture", Menu: []string{"28/10", "22/1", "1/1"}},
 	{NS: "exif", Name: "GPSLatitude", Kind: XFloat, Field: "Exif.GPSLatitude", Menu: []string{"47.375", "-33.8568", "0.5"}},
 	{NS: "exif", Name: "GPSLongitude", Kind: XFloat, Field: "Exif.GPSLongitude", Menu: []string{"8.5417", "-151.2153"}},
 	{NS: "exif", Name: "GPSAltitude", Kind: XFloat, Bits: 32, Field: "Exif.GPSAltitude", Menu: []string{"408.25", "-12.5"}},
 	{NS: "aux", Name: "SerialNumber", Kind: XString, Field: "Aux.SerialNumber", Menu: []string{"SN-0042", "7"}},
-	{NS: "aux", Name: "Lens", Kind: XString, Field: "Aux.Lens", Menu: []string{"VL 24-70mm f/2.8", "L", "  padded lens name  ", "a > b/>c"}},
+	{NS: "aux", Name: "Lens", Kind: XString, Field: "Aux.Lens", Menu: []string{"VL 24-70mm f/2.8", "L", "  padded lens name  ", "a > b/>c", ">starts with gt", "/>starts like an empty-element end"}},
 	{NS: "aux", Name: "LensInfo", Kind: XString, Field: "Aux.LensInfo", Menu: []string{"24/1 70/1 28/10 28/10"}},
-	{NS: "aux", Name: "LensID", Kind: XInt, Bits: 32, Field: "Aux.LensID", Menu: []string{"198", "4294967294"}},
+	{NS: "aux", Name: "LensID", Kind: XInt, Bits: 32, Field: "Aux.LensID", Menu: []string{"198", "4294967294", "4294967295"}},
 	{NS: "aux", Name: "LensSerialNumber", Kind: XString, Field: "Aux.LensSerialNumber", Menu: []string{"LSN-9"}},
 	{NS: "aux", Name: "ImageNumber", Kind: XInt, Bits: 16, Field: "Aux.ImageNumber", Menu: []string{"1234", "65535"}},
 	{NS: "aux", Name: "FlashCompensation", Kind: XBias, Field: "Aux.FlashCompensation", Menu: []string{"-2/3", "1/1"}},
-	{NS: "xmp", Name: "CreateDate", Kind: XDate, Field: "Basic.CreateDate", Menu: []string{"2023-06-15T12:34:51+09:00", "2023-06-15T12:34:51"}},
+	{NS: "xmp", Name: "CreateDate", Kind: XDate, Field: "Basic.CreateDate", Menu: []string{"2023-06-15T12:34:51+09:00", "2023-06-15T12:34:51", "2023-06-15T12:34:51.7", "2023-06-15T12:34:51.75Z"}},
 	{NS: "xmp", Name: "CreatorTool", Kind: XString, Field: "Basic.CreatorTool", Menu: []string{"Verif Tool 1.0 (Linux)", "T", "trailing blank ", " leading blank"}},
 	{NS: "xmp", Name: "Label", Kind: XString, Field: "Basic.Label", Menu: []string{"Select", "R", " "}},
-	{NS: "xmp", Name: "MetadataDate", Kind: XDate, Field: "Basic.MetadataDate", Menu: []string{"2023-06-16T08:00:00Z", "2023-06-16T08:00:00.50"}},
-	{NS: "xmp", Name: "ModifyDate", Kind: XDate, Field: "Basic.ModifyDate", Menu: []string{"2023-06-15T12:34:56-05:00"}},
-	{NS: "xmp", Name: "Rating", Kind: XInt, Bits: 8, Field: "Basic.Rating", Menu: []string{"3", "0", "5"}},
+	{NS: "xmp", Name: "MetadataDate", Kind: XDate, Field: "Basic.MetadataDate", Menu: []string{"2023-06-16T08:00:00Z", "2023-06-16T08:00:00.50", "2023-06-16T08:00:00.5+02:00", "2023-06-16T08:00:00.123456789Z"}},
+	{NS: "xmp", Name: "ModifyDate", Kind: XDate, Field: "Basic.ModifyDate", Menu: []string{"2023-06-15T12:34:56-05:00", "2023-06-15T12:34:56.999-05:00"}},
+	{NS: "xmp", Name: "Rating", Kind: XInt, Bits: 8, Field: "Basic.Rating", Menu: []string{"3", "0", "5", "-1", "1"}},
 	{NS: "xmpMM", Name: "DocumentID", Kind: XUUID, Field: "MM.DocumentID", Menu: []string{"xmp.did:" + uuidA, "uuid:" + uuidB, uuidA, "xmp.did:" + strings.ToUpper(uuidB), "xmp.did:" + strings.ReplaceAll(uuidA, "-", "")}},
 	{NS: "xmpMM", Name: "OriginalDocumentID", Kind: XUUID, Field: "MM.OriginalDocumentID", Menu: []string{"xmp.did:" + uuidB}},
 	{NS: "xmpMM", Name: "InstanceID", Kind: XUUID, Field: "MM.InstanceID", Menu: []string{"xmp.iid:" + uuidA, "uuid:" + uuidA}},
@@ -141,10 +141,23 @@ type XStyle struct {
 	Swap      int // k>0: swap properties k-1 and k
 	Indent    int // white space between elements
 	CloseWS   int // white space before the closing '>' of start tags
+	Eq        int // white space around the '=' of attributes
 }
 
 var WSMenu = []string{"\n   ", " ", "\n\n", "  \n ", "\t", "\r\n   ", strings.Repeat(" ", 37), strings.Repeat(" ", 130), strings.Repeat(" ", 600)}
 var indentMenu = []string{"\n  ", "", " ", "\n\n\n", strings.Repeat(" ", 130), "\r\n\t"}
+
+func init() {
+	// blank runs around the multiples of the reader's 128-byte look-ahead step
+	for _, r := range [][2]int{{100, 135}, {228, 262}, {356, 390}} {
+		for n := r[0]; n <= r[1]; n++ {
+			WSMenu = append(WSMenu, strings.Repeat(" ", n))
+			indentMenu = append(indentMenu, strings.Repeat(" ", n))
+		}
+	}
+}
+
+var eqMenu = []string{"=", " = ", "= ", " =", "\n=\n"}
 
 const nJunk = 5 + 5 + 24
 
@@ -197,6 +210,7 @@ func ChooseXStyle(x Chooser, nprops int) XStyle {
 		AltPrefix: x.Choose("xmp.xap-prefixes", 2),
 		Indent:    x.Choose("xmp.element-space", len(indentMenu)),
 		CloseWS:   x.Choose("xmp.space-before-close", 3),
+		Eq:        x.Choose("xmp.space-around-equals", len(eqMenu)),
 	}
 	if nprops > 1 {
 		st.Swap = x.Choose("xmp.swap-neighbours", nprops)
@@ -278,7 +292,7 @@ func (rec *XRec) Serialize(st XStyle) []byte {
 		nattr := 0
 		for i, p := range ps {
 			if p.Form == 0 && !allElem {
-				sb.WriteString(ws + prefix(p.Spec.NS) + ":" + p.Spec.Name + "=" + q + esc(p.Value) + q)
+				sb.WriteString(ws + prefix(p.Spec.NS) + ":" + p.Spec.Name + eqMenu[st.Eq] + q + esc(p.Value) + q)
 				nattr++
 				if unknown == 1 && i%5 == 2 {
 					sb.WriteString(ws + "zz:Unknown" + fmt.Sprint(i) + "=" + q + "unknown value " + fmt.Sprint(i) + q)
